@@ -177,7 +177,7 @@ func c03RunWord(c *Ctx, word string, full bool) {
 			}
 		}
 		if full {
-			for _, pat := range []string{"^.* M y$", "[M] ", "", ".", ".*", "M", "M ", " M", "M y", "My", "\\sM\\s"} {
+			for _, pat := range []string{"^.* M y$", "[M] ", "", ".", ".*", "M", "M ", " M", "M y", "My", "\\sM\\s", "^x1 M y$", "^x0 UMy$", `\Ax2 M y\z`, "^M$", "^ M $", "x1", "^x1", "y$", "(?i)m Y", "M y|UMy"} {
 				for _, inv := range []bool{false, true} {
 					for _, ltx := range [][3]int{{0, 0, 0}, {1, 1, 0}, {0, 2, 1}, {2, 0, 2}, {9, 9, 9}, {1, 1, 1}} {
 						c03Check(c, path, c03Case{Word: word, Pattern: pat, Invert: inv, Before: ltx[0], After: ltx[1], Max: ltx[2]})
@@ -196,7 +196,7 @@ func init() {
 		ID:    "C03",
 		Level: "exploration",
 		Rule: "files are all words over {matching line, non-matching line} up to length 6 (quick) / 9 (thorough); for each word the full product " +
-			"before x after x max in {0,1,2,3,9}^3 x invert, plus 10 further patterns (anchored, a class, the no-op spellings '', '.', '.*', patterns with leading/trailing blanks) on 6 contexts; the real CatFile reader " +
+			"before x after x max in {0,1,2,3,9}^3 x invert, plus 20 further patterns (anchored at one or both ends incl. whole-line literals, a class, flags, alternation, the no-op spellings '', '.', '.*', patterns with leading/trailing blanks) on 6 contexts; the real CatFile reader " +
 			"(regex passed through Serialize/Deserialize as on the wire) runs under the controlled scheduler and is compared with the reference selector of the statement; " +
 			"non-trivial = expected output is neither empty nor the whole file",
 		Assumptions: []string{
